@@ -406,7 +406,7 @@ func (e *Engine) Explore(h *ssa.Function, seed int64, nValidate int) *HarnessRep
 	cond := sync.NewCond(&mu)
 	stack := []workItem{{}}
 	active := 0
-	var paths atomic.Int64
+	var paths, nSamples atomic.Int64
 	funcs := map[*ssa.Function]bool{}
 	truncated := false
 
@@ -449,7 +449,8 @@ func (e *Engine) Explore(h *ssa.Function, seed int64, nValidate int) *HarnessRep
 				stack = stack[:0]
 				mu.Unlock()
 			} else {
-				want := nValidate > 0 && (n%int64(max64(1, e.validateEvery))) == 0
+				// sample every k-th path, and every path while too few usable samples exist
+				want := nValidate > 0 && int(nSamples.Load()) < nValidate && ((n%int64(max64(1, e.validateEvery))) == 0 || n <= 200)
 				res = e.runPath(sess, h, it.prefix, want)
 				if sess.cmd == nil || res.Aborted != nil && res.Aborted.kind == abSolver {
 					// restart a dead solver
@@ -513,7 +514,8 @@ func (e *Engine) Explore(h *ssa.Function, seed int64, nValidate int) *HarnessRep
 					"observed": res.Observed,
 				})
 			}
-			if res.SampleModel != nil && len(rep.ValidationModels) < nValidate {
+			if res.SampleModel != nil && len(rep.ValidationModels) < nValidate && !usesInjection(res.SampleModel) {
+				nSamples.Add(1)
 				rep.ValidationModels = append(rep.ValidationModels, map[string]any{
 					"inputs": res.SampleModel, "observed": res.Observed, "panicked": res.Panicked,
 				})
